@@ -87,3 +87,11 @@ mod raw_memory_freelist;
 pub use self::address::Address;
 pub use self::address::ObjectReference;
 pub use self::opaque_pointer::*;
+
+/// Verification hook: the free-list implementations live in private modules.
+#[cfg(mmtk_verif)]
+pub mod verif_freelist {
+    pub use super::freelist::*;
+    pub use super::int_array_freelist::IntArrayFreeList;
+    pub use super::raw_memory_freelist::RawMemoryFreeList;
+}
